@@ -173,6 +173,9 @@ class LlcPair(object):
         kw_t = {"terminate": term_t} if term_t else {}
         self.loop_i = self.k.spawn(lambda: self.I.run(**kw_i), name="llc-run-I", daemon=daemon, node="I")
         self.loop_t = self.k.spawn(lambda: self.T.run(**kw_t), name="llc-run-T", daemon=daemon, node="T")
+        # pre-emption of the link loops is a plain context switch: stalling them in virtual time
+        # would be a slow link (LTO expiry), which is a different scenario
+        self.loop_i.no_stall = self.loop_t.no_stall = True
         return self.loop_i, self.loop_t
 
     # ---- stepped mode -----------------------------------------------------------------------
@@ -199,7 +202,7 @@ def settle(k, limit=10000):
     me = k.cur()
     n = 0
     while any(t.state == kmod.RUNNABLE and t is not me for t in k.tasks):
-        k.yield_point()
+        k.yield_to_others()
         n += 1
         if n > limit:
             raise kmod.BudgetExceeded("settle(): helper tasks keep running")
